@@ -11,7 +11,7 @@ from .vals import NeedEnum, Unsupported
 CLAUSES = ['loop-bound-wraps', 'aborts-in-domain', 'unknown-access', 'read-outside-declared-extent',
            'write-outside-declared-extent', 'writes-source-operand', 'writes-table', 'writes-global',
            'frees-caller-memory', 'table-read-out-of-bounds', 'heap-out-of-bounds', 'output-not-fully-written',
-           'read-before-write']
+           'read-before-write', 'alignment-dependent-path', 'narrow-overflow']
 
 
 def sweep_api(lib, tier, names=None, ordered=True, want=None, aliasing=False, collect=None, cpus=('accel', 'generic')):
